@@ -172,6 +172,11 @@ func (sys *system) write(stream, size int) error {
 	if size == 1 {
 		h.Extension, h.ExtensionProfile = true, 0xBEDE
 		_ = h.SetExtension(1, []byte{byte(q), 0x5A, 0xA5})
+		if q%2 == 0 {
+			// the same extension with a 16-byte value on every second packet (716 bytes on the wire): the size of
+			// a packet is the size of this packet, not that of an earlier one with the same layout
+			_ = h.SetExtension(1, []byte{byte(q), 0x5A, 0xA5, 3, 4, 5, 6, 7, 8, 9, 10, 11, 12, 13, 14, 15})
+		}
 	}
 	if sys.c.Pacer == "cc-leaky" && stream == 1 {
 		sys.tseq++
